@@ -70,14 +70,8 @@ def tridiag_guards(env, case):
         A = env.qherm('a', 1)
         env.raises('1x1 input rejected', lambda: T.tridiagonalize(A), (ValueError,))
     elif case == 'nonhermitian':
-        A = env.qarr('a', (2, 2))
-        An = cm.as_nested(env, A)
-        # non-Hermitian by a margin: |a01 - conj(a10)|^2 >= 1e-6 * (1 + |a10|^2)
-        d = [An[0][1][0] - An[1][0][0], An[0][1][1] + An[1][0][1], An[0][1][2] + An[1][0][2], An[0][1][3] + An[1][0][3]]
-        d2 = sum((x * x for x in d), 0)
-        m2 = sum((x * x for x in An[1][0]), 0) + sum((x * x for x in An[0][1]), 0)
-        lo = Fraction(1, 10 ** 6) if env.symbolic else 1e-6
-        env.assume(d2 >= lo * (1 + m2), 'non-Hermitian by a relative margin of 1e-3')
+        from .c20 import _nonherm
+        A = _nonherm(env, 2, 'a')
         env.raises('non-Hermitian input rejected', lambda: T.tridiagonalize(A), (ValueError,))
         env.raises('non-Hermitian input rejected by the eigendecomposition', lambda: env.R.eigen.quaternion_eigendecomposition(A), (ValueError,))
 
